@@ -221,6 +221,66 @@ theorem upgrade_before_codec_height_not_merged (stored : Upgrade.Upgrade) (g : G
   unfold handleUpgrade handleUpgradeBefore
   simp [hb]
 
+/-- A boot panics exactly when a stored feature string has no `:` (as coded: and the stored height is
+not 0; after the restart patch: regardless of the height). -/
+theorem restart_panics_iff (stored : Upgrade.Upgrade) :
+    (restart stored = none ↔ stored.height ≠ 0 ∧ ∃ s ∈ stored.features, splitKV s = none) ∧
+    (restartFixed stored = none ↔ ∃ s ∈ stored.features, splitKV s = none) := by
+  have key : sliceToExistingMap stored.features [] = none ↔ ∃ s ∈ stored.features, splitKV s = none := by
+    constructor
+    · intro hn
+      apply Classical.byContradiction
+      intro hne
+      have hall : ∀ s ∈ stored.features, (parseEntry s).isSome := by
+        intro s hs
+        cases hsp : splitKV s with
+        | none => exact absurd ⟨s, hs, hsp⟩ hne
+        | some kv => simp [parseEntry, hsp]
+      have := sliceToExistingMap_isSome stored.features [] hall
+      rw [hn] at this
+      cases this
+    · rintro ⟨s, hs, hsp⟩
+      cases hm : sliceToExistingMap stored.features [] with
+      | none => rfl
+      | some m =>
+        have := (sliceToExistingMap_spec _ _ _ hm).2.2.2 s hs
+        simp [parseEntry, hsp] at this
+  constructor
+  · unfold restart
+    by_cases hh : stored.height ≠ 0
+    · rw [if_pos hh]
+      cases hm : sliceToExistingMap stored.features [] with
+      | none => simp [hh, ← key, hm]
+      | some m =>
+        have : ¬ ∃ s ∈ stored.features, splitKV s = none := fun h => by rw [key.mpr h] at hm; cases hm
+        simp [this]
+    · rw [if_neg hh]
+      simp [hh]
+  · unfold restartFixed
+    cases hm : sliceToExistingMap stored.features [] with
+    | none => simp [← key, hm]
+    | some m =>
+      have : ¬ ∃ s ∈ stored.features, splitKV s = none := fun h => by rw [key.mpr h] at hm; cases hm
+      simp [this]
+
+/-- **Defect of the legacy branch**: below the codec upgrade height a message is stored verbatim, also
+when a feature string has no `:`.  From then on every boot panics in `SliceToExistingMap` (the node
+cannot restart, with or without the restart patch) and every later upgrade message is rejected. -/
+theorem legacy_branch_malformed_feature_bricks_restart :
+    ∃ stored' g', handleUpgrade {} {} 90 { height := 17, version := featureKey, features := [[]] } = some (stored', g') ∧
+      restart stored' = none ∧ restartFixed stored' = none ∧
+      ∀ g msg, handleUpgradeAfterUpdate stored' g msg = none := by
+  refine ⟨{ height := 17, version := featureKey, features := [[]] }, _,
+    upgrade_before_codec_height_not_merged {} {} 90 _ (by decide), ?_, ?_, ?_⟩
+  · exact (restart_panics_iff _).1.mpr ⟨by decide, [], by simp, by decide⟩
+  · exact (restart_panics_iff _).2.mpr ⟨[], by simp, by decide⟩
+  · intro g msg
+    rw [upgrade_fails_iff]
+    intro hall
+    have := hall [] (by simp)
+    revert this
+    decide
+
 /-! ## Non-vacuity -/
 
 example : Consistent {} { upgradeHeight := 0 } := consistent_genesis_default
